@@ -15,9 +15,9 @@ var c01ContentTypes = []string{"application/json", "application/x-protobuf", "ap
 func VerifC01RoundTrip() {
 	ct := c01ContentTypes[verif.Choice("contentType", len(c01ContentTypes))]
 	mux := http.NewServeMux()
-	ret := &Thing{Id: verif.String("resp.id", 3), Total: verif.Int64("resp.total"), Ok: verif.Bool("resp.ok")}
+	ret := &Thing{Id: verif.String("resp.id", verif.L(3)), Total: verif.Int64("resp.total"), Ok: verif.Bool("resp.ok")}
 	if verif.Bool("resp.hasItem") {
-		ret.Items = []string{verif.String("resp.item", 2)}
+		ret.Items = []string{verif.String("resp.item", verif.L(2))}
 	}
 	srv := &c01Server{ret: ret}
 	if err := RegisterThingServiceServer(srv, WithMux(mux)); err != nil {
@@ -32,11 +32,11 @@ func VerifC01RoundTrip() {
 	delivered := false
 	rpc := verif.Choice("rpc", 5)
 	// path-bound strings: a letter, a blank and reserved URL characters
-	pathVal := func(n string) string { return verif.StringIn(n, 2, "ab +/%?#") }
+	pathVal := func(n string) string { return verif.StringIn(n, verif.L(2), "ab +/%?#") }
 	kfZeroRequired := false
 	switch rpc {
 	case 0:
-		req := &GetReq{ThingId: pathVal("get.thing_id"), Page: verif.Int32("get.page"), Q: verif.StringIn("get.q", 2, "ab &=+%"), Big: verif.Int64("get.big"), Flag: verif.Bool("get.flag")}
+		req := &GetReq{ThingId: pathVal("get.thing_id"), Page: verif.Int32("get.page"), Q: verif.StringIn("get.q", verif.L(2), "ab &=+%"), Big: verif.Int64("get.big"), Flag: verif.Bool("get.flag")}
 		verif.Assume(req.ThingId != "")
 		kfZeroRequired = req.Big == 0
 		resp, err = c.GetThing(ctx, req)
@@ -44,15 +44,15 @@ func VerifC01RoundTrip() {
 			delivered = verif.And(g.ThingId == req.ThingId, g.Page == req.Page, g.Q == req.Q, g.Big == req.Big, g.Flag == req.Flag)
 		}
 	case 1:
-		req := &CreateReq{Note: verif.String("create.note", 3), Big: verif.Int64("create.big")}
+		req := &CreateReq{Note: verif.String("create.note", verif.L(3)), Big: verif.Int64("create.big")}
 		resp, err = c.CreateThing(ctx, req)
 		if g := srv.gotCreate; g != nil {
 			delivered = verif.And(g.Note == req.Note, g.Big == req.Big)
 		}
 	case 2, 3:
-		req := &UpdateReq{ThingId: pathVal("update.thing_id"), Note: verif.String("update.note", 3), Big: verif.Int64("update.big"), Count: verif.Int32("update.count")}
+		req := &UpdateReq{ThingId: pathVal("update.thing_id"), Note: verif.String("update.note", verif.L(3)), Big: verif.Int64("update.big"), Count: verif.Int32("update.count")}
 		if verif.Bool("update.hasTag") {
-			req.Tags = []string{verif.String("update.tag", 2)}
+			req.Tags = []string{verif.String("update.tag", verif.L(2))}
 		}
 		verif.Assume(req.ThingId != "")
 		var g *UpdateReq
